@@ -36,15 +36,15 @@ type BHT struct {
 // Rich39794 are optional elements of an ISO/IEC 39794-5 representation added by the "rich" generator.
 type Rich39794 struct {
 	CaptureYear, CaptureMonth, CaptureDay, CaptureHour, CaptureMinute, CaptureSecond, CaptureMillisecond int
-	SessionID, DerivedFrom                                                                     int
-	ModelOrg, ModelID                                                                          int // captureDeviceBlock.modelIdBlock
-	CertIDs                                                                                    [][2]int // captureDeviceBlock.certificationIdBlocks (SEQUENCE OF)
-	CameraToSubjectDistance, SensorDiagonal, LensFocalLength                                   int
-	Width, Height                                                                              int
-	FaceImageKind                                                                              int // code
-	ColourSpace                                                                                int // code
-	Quality                                                                                    bool // add an (opaque) qualityBlocks element
-	Landmarks                                                                                  bool // add an (opaque) landmarkBlocks element
+	SessionID, DerivedFrom                                                                               int
+	ModelOrg, ModelID                                                                                    int      // captureDeviceBlock.modelIdBlock
+	CertIDs                                                                                              [][2]int // captureDeviceBlock.certificationIdBlocks (SEQUENCE OF)
+	CameraToSubjectDistance, SensorDiagonal, LensFocalLength                                             int
+	Width, Height                                                                                        int
+	FaceImageKind                                                                                        int  // code
+	ColourSpace                                                                                          int  // code
+	Quality                                                                                              bool // add an (opaque) qualityBlocks element
+	Landmarks                                                                                            bool // add an (opaque) landmarkBlocks element
 }
 
 // Rec39794 is an ISO/IEC 39794-5 face image data block as profiled by the ICAO application profile:
